@@ -126,9 +126,38 @@ class ABuf:
                 me.fn, me.n = _fresh_fn(me.tag), z3.IntVal(0)
             return BoundBuiltin('bytearray.clear', clear, self)
         if name == 'decode':
-            from .sstr import SStr, Atom
-            return BoundBuiltin('bytes.decode', lambda ex, me, *a, **k: TextOf(me), self)
+            def decode(ex, me, *a, **k):
+                strict_decode_may_fail(ex, me, a, k)
+                return TextOf(me)
+            return BoundBuiltin('bytes.decode', decode, self)
+        if name == '__never__':
+            def decode(ex, me, *a, **k):
+                enc = (a[0] if a else k.get('encoding', 'utf-8'))
+                errors = (a[1] if len(a) > 1 else k.get('errors', 'strict'))
+                enc = enc.lower().replace('_', '-') if isinstance(enc, str) else None
+                total = enc in ('latin-1', 'latin1', 'iso-8859-1', 'cp437') or errors in ('ignore', 'replace', 'backslashreplace', 'surrogateescape')
+                if not total:
+                    # arbitrary bytes: a strict decode fails on some contents (any byte >= 0x80 for ascii, malformed sequences for utf-8)
+                    me._dec = getattr(me, '_dec', 0) + 1
+                    if ex.branch(z3.Bool(f'{me.tag}.not-valid-{enc}!{me._dec}'), tag='strict-decode-fails'):
+                        raise PyRaise(make_exc('UnicodeDecodeError', f'{enc} codec cannot decode the bytes read'))
+                return TextOf(me)
+            return BoundBuiltin('bytes.decode', decode, self)
         return None
+
+
+def strict_decode_may_fail(ex, me, a, k):
+    """bytes.decode of unknown content: total for latin-1 or errors='ignore'/'replace'; a strict decode raises
+    UnicodeDecodeError on some contents (any byte >= 0x80 for ascii, malformed sequences for utf-8)."""
+    enc = (a[0] if a else k.get('encoding', 'utf-8'))
+    errors = (a[1] if len(a) > 1 else k.get('errors', 'strict'))
+    enc = enc.lower().replace('_', '-') if isinstance(enc, str) else None
+    total = enc in ('latin-1', 'latin1', 'iso-8859-1', 'cp437') or errors in ('ignore', 'replace', 'backslashreplace', 'surrogateescape')
+    if not total:
+        me._dec = getattr(me, '_dec', 0) + 1
+        tag = getattr(me, 'tag', 'line')
+        if ex.branch(z3.Bool(f'{tag}.not-valid-{enc}!{me._dec}'), tag='strict-decode-fails'):
+            raise PyRaise(make_exc('UnicodeDecodeError', f'{enc} codec cannot decode the bytes read'))
 
 
 class TextOf:
